@@ -341,7 +341,7 @@ def mutant_check(item, built, root_name, limit, bump, sets):
         # same name: is the mutant semantically different?  pandas decides
         try:
             v2 = b2.eval_pd()[p2["out"]]
-            d = compare(v2.pd, ref_pd.pd, order=True, index=True, dtypes=True, exact=True)
+            d = compare(v2.pd, ref_pd.pd, order=ref_pd.order and v2.order, index=ref_pd.index and v2.index, dtypes=True, exact=True)
             same_struct = kind in ("npartitions", "chunksize", "cut-vector")
         except Exception:
             bump("mutant_pandas_refused")
